@@ -14,7 +14,7 @@ ENGINES = {
     "C01": "run", "C02": "run", "C03": "run", "C04": "run", "C05": "run", "C07": "run",
     "C08": "run", "C11": "run", "C23": "run", "C25": "run", "C30": "run", "C31": "run",
     "C06": "ops", "C09": "ops", "C10": "ops",
-    "C12": "alloc", "C13": "alloc", "C14": "alloc",
+    "C12": "alloc", "C13": ["alloc", "run"], "C14": "alloc",
     "C15": "serde", "C16": "serde", "C29": "serde", "C17": "serdebr", "C18": "serdebr",
     "C19": "incremental",
     "C20": "serde2026", "C21": "varint",
